@@ -216,6 +216,9 @@ func ParseSliceHeader(nalu []byte, spsMap map[uint32]*SPS, ppsMap map[uint32]*PP
 				}
 				sh.NumLongTermPics = r.ReadExpGolomb()
 				for i := uint(0); i < uint(sh.NumLongTermSps)+sh.NumLongTermPics; i++ {
+					if r.AccError() != nil {
+						return sh, r.AccError()
+					}
 					var lt LongTermRPS
 					if i < uint(sh.NumLongTermSps) {
 						if sps.NumLongTermRefPics > 1 {
@@ -262,6 +265,10 @@ func ParseSliceHeader(nalu []byte, spsMap map[uint32]*SPS, ppsMap map[uint32]*PP
 				if sh.SliceType == SLICE_B {
 					sh.NumRefIdxL1ActiveMinus1 = uint8(r.ReadExpGolomb())
 				}
+			}
+			if sh.NumRefIdxL0ActiveMinus1 > 14 || sh.NumRefIdxL1ActiveMinus1 > 14 {
+				return sh, fmt.Errorf("num_ref_idx_active_minus1 values %d and %d must be in range 0 to 14",
+					sh.NumRefIdxL0ActiveMinus1, sh.NumRefIdxL1ActiveMinus1)
 			}
 
 			if pps.ListsModificationPresentFlag {
@@ -345,6 +352,14 @@ func ParseSliceHeader(nalu []byte, spsMap map[uint32]*SPS, ppsMap map[uint32]*PP
 		if sh.NumEntryPointOffsets > 0 {
 			// value shall be in the range of 0 to 31, inclusive
 			sh.OffsetLenMinus1 = uint8(r.ReadExpGolomb())
+			if sh.OffsetLenMinus1 > 31 {
+				return sh, fmt.Errorf("offset_len_minus1 is %d, but must be in range 0 to 31", sh.OffsetLenMinus1)
+			}
+			// Every entry point offset takes at least one bit of the NAL unit
+			if sh.NumEntryPointOffsets > 8*uint(len(nalu)) {
+				return sh, fmt.Errorf("num_entry_point_offsets %d too big for NAL unit size %d",
+					sh.NumEntryPointOffsets, len(nalu))
+			}
 			if sh.NumEntryPointOffsets > 0 {
 				sh.EntryPointOffsetMinus1 = make([]uint32, sh.NumEntryPointOffsets)
 				for i := uint(0); i < sh.NumEntryPointOffsets; i++ {
